@@ -184,18 +184,6 @@ def reindex_database(
     if cmd.paths:
         # Only some files were looked at, so keep what we know about the rest.
         file_to_hash = old_file_to_hash | file_to_hash
-    else:
-        # Files that have been deleted (or renamed) since they were indexed.
-        for zorg_page_name in sorted(set(old_file_to_hash) - set(file_to_hash)):
-            if session.repo.remove_file_by_name(zorg_page_name) is not None:
-                num_of_updates += 1
-                c.zprint(
-                    "REMOVING DELETED FILE",
-                    zorg_page_name,
-                    fg_color=Color.BLACK,
-                    bg_color=Color.YELLOW,
-                )
-                session.commit()
 
     for zorg_page_name, hash_ in file_to_hash.copy().items():
         # If this file has never been indexed OR the file contents have changed
@@ -246,6 +234,21 @@ def reindex_database(
             if zorg_page.events:
                 pending_write_backs.append(zorg_page_name)
             session.commit()
+
+    if not cmd.paths:
+        # Files that have been deleted (or renamed) since they were indexed.
+        # NOTE: This is done right before the hash map gets rewritten (without
+        # them), so that a run which is refused above leaves both untouched.
+        for zorg_page_name in sorted(set(old_file_to_hash) - set(file_to_hash)):
+            if session.repo.remove_file_by_name(zorg_page_name) is not None:
+                num_of_updates += 1
+                c.zprint(
+                    "REMOVING DELETED FILE",
+                    zorg_page_name,
+                    fg_color=Color.BLACK,
+                    bg_color=Color.YELLOW,
+                )
+                session.commit()
 
     if num_of_updates == 0:
         c.zprint("NO ZORG FILES HAVE BEEN MODIFIED")
